@@ -68,8 +68,12 @@ def gen_names(rng, n, allow_bad):
         r = rng.random()
         if r < 0.35 and names:
             nm = rng.choice(sorted(names)) + rng.choice(ALPHA)       # extend an existing name: prefix chains
-        elif r < 0.6:
+        elif r < 0.55:
             nm = rng.choice(base)
+        elif r < 0.63:
+            # a literal harvested from the code under test ('.git', 'HEAD', a suffix that some code strips ...), '/'-free
+            from .gitobj_common import source_tokens, splice_token
+            nm = splice_token(rng, rng.choice(base), "bytes").replace(b"/", b"_")
         else:
             nm = b"".join(rng.choice(ALPHA) for _ in range(rng.randrange(1, 6)))
         if not allow_bad:
@@ -80,6 +84,11 @@ def gen_names(rng, n, allow_bad):
 
 def gen_perms(rng):
     r = rng.random()
+    if r < 0.06:      # a constant of the code under test (a mask, a mode, a threshold a change introduces) and its neighbours
+        from .gitobj_common import source_ints
+        c = [v for v in source_ints() if 0 <= v < 65536]
+        if c:
+            return rng.choice(c)
     if r < 0.45:
         return rng.choice(CANON_PERMS)
     if r < 0.72:
@@ -247,6 +256,17 @@ def gen(rng, tier):
         es, bad = gen_entries(rng, n, kinds[k % len(kinds)])
         cases.append(_decorate(rng, es, bad))
     cases += gen_special(rng, tier)
+    # deterministic sweep over the literals harvested from the code under test (see c04): entry names ('/' removed)
+    from .gitobj_common import source_tokens
+    toks = [t.replace(b"/", b"_").replace(b"\x00", b"_") for t in source_tokens("bytes")]
+    for i in range(0, len(toks), 4):
+        es, seen = [], set()
+        for j, t in enumerate(toks[i:i + 4]):
+            for nm, ty, pm in ((t, "file", 0o100644), (t + b".d", "dir", 0o40000), (b"a" + t, "rev", 0o160000)):
+                if nm and nm not in seen:
+                    seen.add(nm)
+                    es.append([nm.hex(), ty, (bytes([(i + j) % 251 + 1]) * 20).hex(), pm])
+        cases.append({"entries": es, "perm": list(reversed(range(len(es))))})
     if tier == "thorough":
         # exhaustive: all sets of <= 3 entries over a 6-name x 3-type alphabet, all permutations
         names = [b"a", b"a.", b"a0", b"a-", b"ab", b"a/"[:1] + b"\x2f"[:0] + b"~"]
